@@ -1452,11 +1452,16 @@ func (*writer).Publish
     ensures[struct_items]   ret1 == nil ==> len(w.index.items) == old(len(w.index.items)) + len(msgs)
                             && (forall k :: 0 <= k && k < old(len(w.index.items)) ==> w.index.items[k] == old(w.index.items)[k])
                             && (forall k :: 0 <= k && k < len(msgs) ==> w.index.items[old(len(w.index.items)) + k].Offset == old(w.index.nextOffset) + k)
+    // C01/C10: a message gets its offset and its default time BEFORE it is written to the log file, so the record,
+    // the index item and the caller's slice carry the same offset and time
+    assert[struct_stamp_offset] gWrites[w.messages] == old(gWrites)[w.messages] + rangeindex + 1 at store Message.Offset 1
+    assert[struct_stamp_time]   gWrites[w.messages] == old(gWrites)[w.messages] + rangeindex + 1 at store Message.Time 1
     loop 1
       invariant[locks] ixLocksFree()
       invariant[sync]  wOK(w) && (forall p string :: p != w.messages.Path && p != fPath[w.items.f] ==> fsDirty[p] == old(fsDirty[p]))
       invariant[struct_idx]   -1 <= rangeindex && rangeindex < len(msgs) && len(items) == len(msgs) && w.messages.pos >= 0
       invariant[struct_same]  w.index != nil && w.index.items == old(w.index.items) && w.index.nextOffset == old(w.index.nextOffset) && nextOffset == old(w.index.nextOffset)
+      invariant[struct_written] gWrites[w.messages] == old(gWrites)[w.messages] + rangeindex + 1
       invariant[struct_done]  forall j :: 0 <= j && j <= rangeindex ==> msgs[j].Offset == nextOffset + j && items[j].Offset == nextOffset + j && items[j].Position >= 0
 func (*writer).Close
     flags locks lockonly
